@@ -95,6 +95,7 @@ def run(tier):
         from harness import cachefaults
         from harness.common import BUILD
         rt = cachefaults.realfs_scenarios(os.path.join(BUILD, 'realfs-%d' % os.getpid()))
+        rt += cachefaults.sibling_path_scenarios(os.path.join(BUILD, 'realfs-%d' % os.getpid()))
         traces += rt
         out.cov(real_file_layer_scenarios=len(rt))
         out.drift += drift[:5]
